@@ -454,6 +454,63 @@ def rw_for_each(text, nth, fired, fname):
     raise Undecided('lost-anchor', 'for_each %d: no such statement in %s' % (nth, fname))
 
 
+def rw_fold_loop(text, nth, fired, fname):
+    """R29 (added for unit `qos_plcdr`, directive `@@fold_loop k`): the nth expression of the form
+        ITER.fold(INIT, |mut ACC, X| { STMTS ACC })
+    — a fold whose closure takes the accumulator by value as `mut ACC`, works on it and hands the
+    same binding back as the tail expression — becomes the definition of Iterator::fold for such a
+    closure:
+        { let mut ACC = INIT; for X in ITER { STMTS } ACC }
+    STMTS are the verbatim source text and stay on their lines.  Guards (else UNDECIDED): ACC and X
+    are single identifiers, the closure body is a block whose tail is exactly `ACC`, ITER starts at
+    the beginning of a statement / block tail (it is the whole receiver chain).  The resulting `for`
+    is an ordinary loop for @@desugar_for / @@name_for / @@loop numbering."""
+    src = Src(text)
+    cnt = 0
+    for i in range(src.n()):
+        if not (src.s(i) == '.' and src.s(i + 1) == 'fold' and src.s(i + 2) == '('):
+            continue
+        cnt += 1
+        if cnt != nth:
+            continue
+        op, close = i + 2, src.match[i + 2]
+        # INIT: up to the top-level ',' inside the parentheses
+        k = op + 1
+        while k < close and src.s(k) != ',':
+            if src.s(k) in rscan.OPEN: k = src.match[k]
+            k += 1
+        if k >= close or not (src.s(k + 1) == '|' and src.s(k + 2) == 'mut' and src.s(k + 4) == ','
+                              and src.s(k + 6) == '|' and src.s(k + 7) == '{'):
+            raise Undecided('unsupported-construct', 'fold %d in %s: not `fold(INIT, |mut ACC, X| { .. ACC })`' % (nth, fname))
+        acc, x = src.s(k + 3), src.s(k + 5)
+        bo, bc = k + 7, src.match[k + 7]
+        if not (re.match(r'^\w+$', acc) and re.match(r'^\w+$', x) and src.s(bc - 1) == acc and src.s(bc - 2) in (';', '}', '{')
+                and bc + 1 == close):
+            raise Undecided('unsupported-construct', 'fold %d in %s: closure does not end in its accumulator `%s`' % (nth, fname, acc))
+        j = i - 1
+        while j >= 0:
+            sj = src.s(j)
+            if sj in rscan.CLOSE:
+                j = src.match[j] - 1
+                continue
+            if sj in (';', '{', '}', '=', 'return'):
+                break
+            j -= 1
+        start = j + 1
+        it_txt = text[src.t(start).pos:src.t(i - 1).end]
+        init_txt = text[src.t(op + 1).pos:src.t(k - 1).end]
+        whole_a, whole_b = src.t(start).pos, src.t(close).end
+        stm_a, stm_b = src.t(bo).end, src.t(bc - 1).pos        # STMTS (between `{` and the tail ACC)
+        pre_nl = text[whole_a:stm_a].count('\n')
+        post_nl = text[stm_b:whole_b].count('\n')
+        new = ('{ let mut %s = %s; for %s in %s {' % (acc, init_txt.replace('\n', ' '), x, it_txt.replace('\n', ' '))
+               + '\n' * pre_nl + text[stm_a:stm_b].rstrip(' ') + ' } %s }' % acc + '\n' * post_nl)
+        # keep the line count: newlines of the head were emitted before STMTS, those after the tail after the block
+        fired.append(('R29', src.line_of(whole_a), 'ITER.fold(INIT, |mut acc, x| { ..; acc }) -> { let mut acc = INIT; for x in ITER { .. } acc }'))
+        return text[:whole_a] + new + text[whole_b:]
+    raise Undecided('lost-anchor', 'fold %d: no such expression in %s' % (nth, fname))
+
+
 def rw_chain_loop(text, nth, ctype, add_method, fired, fname):
     """R25 (added for unit `acknack`, directive `@@chain_loop k <CollectionType> <insert|push>`): the
     k-th iterator-adapter chain of the shape
@@ -542,6 +599,83 @@ def rw_chain_loop(text, nth, ctype, add_method, fired, fname):
                       % (srctxt, '.'.join(a[0] + '(..)' for a in adapters), ctype, k)))
         return ed.apply()
     raise Undecided('lost-anchor', 'chain_loop %d: no such adapter chain in %s' % (nth, fname))
+
+
+def rw_filter_map_loop(text, nth, fired, fname, ctype=''):
+    """R26 (added for unit `sample_cache`, directive `@@filter_map_loop k [VecType]`; the optional
+    VecType is a type ascription `let mut vx_c_k: VecType` for the annotations): the k-th iterator-adapter
+    chain of the shape
+        SRC.iter().filter_map(|PAT| BODY).collect()
+    becomes the block expression
+        { let mut vx_c_k = Vec::new();
+          for PAT in SRC.iter() { match BODY { Some(vx_x_k) => { vx_c_k.push(vx_x_k); } None => {} } }
+          vx_c_k }
+    i.e. the definitions of Iterator::filter_map ("yields only the values for which the supplied
+    closure returns Some(value)", each element handed to the closure once, in iteration order) and
+    of collect::<Vec<_>>() (the yielded values in order).  PAT and BODY are the verbatim source text
+    and stay on their lines (a closure parameter pattern is a valid `for` pattern for the same item
+    type).  Guards (else UNDECIDED): SRC is a place expression (identifier path); the closure has
+    exactly one parameter; BODY is a block that contains no `return` and no `?` (they would leave
+    the closure, not the loop); `.collect()` has no turbofish.  The new `for` counts as an ordinary
+    loop for @@desugar_for / @@loop numbering."""
+    src = Src(text)
+    cnt = 0
+    for i in range(src.n()):
+        if not (src.s(i) == '.' and src.s(i + 1) == 'collect' and src.s(i + 2) == '(' and src.s(i + 3) == ')'):
+            continue
+        j = i - 1
+        if src.s(j) != ')':
+            continue
+        op = src.match[j]
+        if not (src.s(op - 1) == 'filter_map' and src.s(op - 2) == '.'):
+            continue
+        k0 = op - 3
+        if not (src.s(k0) == ')' and src.s(k0 - 1) == '(' and src.s(k0 - 2) == 'iter' and src.s(k0 - 3) == '.'):
+            continue
+        cnt += 1
+        if cnt != nth:
+            continue
+        s_end = k0 - 4
+        q = s_end
+        while q >= 0 and (src.t(q).kind == 'ident' or src.s(q) == '.'):
+            q -= 1
+        s_start = q + 1
+        srctxt = text[src.t(s_start).pos:src.t(s_end).end]
+        if not re.fullmatch(r'[A-Za-z_][A-Za-z0-9_]*(\s*\.\s*[A-Za-z_][A-Za-z0-9_]*)*', srctxt):
+            raise Undecided('unsupported-construct', 'filter_map_loop %d of %s: source %r is not a place expression' % (nth, fname, srctxt))
+        srctxt = re.sub(r'\s+', '', srctxt)
+        if src.s(op + 1) != '|':
+            raise Undecided('unsupported-construct', 'filter_map_loop %d of %s: argument is not a closure' % (nth, fname))
+        pe = op + 2
+        depth_commas = 0
+        while src.s(pe) != '|':
+            if src.s(pe) in rscan.OPEN:
+                pe = src.match[pe]
+            elif src.s(pe) == ',':
+                depth_commas += 1
+            pe += 1
+        if depth_commas or pe == op + 2:
+            raise Undecided('unsupported-construct', 'filter_map_loop %d of %s: closure must have exactly one parameter' % (nth, fname))
+        pat = text[src.t(op + 2).pos:src.t(pe - 1).end]
+        if src.s(pe + 1) != '{' or src.match[pe + 1] != j - 1:
+            raise Undecided('unsupported-construct', 'filter_map_loop %d of %s: closure body is not a block' % (nth, fname))
+        for x in range(pe + 1, j):
+            if src.s(x) in ('return', '?'):
+                raise Undecided('unsupported-construct', 'filter_map_loop %d of %s: `%s` inside the closure body' % (nth, fname, src.s(x)))
+        k = nth
+        ed = Edits(text)
+        a0 = src.t(s_start).pos
+        body_a = src.t(pe + 1).pos
+        body_b = src.t(j - 1).end
+        tail_b = src.t(i + 3).end
+        ed.replace(a0, body_a, '{ let mut vx_c_%d%s = Vec::new(); for %s in %s.iter() { match ' % (k, (': ' + ctype) if ctype else '', pat.replace('\n', ' '), srctxt)
+                   + keep_newlines(text[a0:body_a]))
+        ed.replace(body_b, tail_b, ' { Some(vx_x_%d) => { vx_c_%d.push(vx_x_%d); } None => {} } } vx_c_%d }' % (k, k, k, k)
+                   + keep_newlines(text[body_b:tail_b]))
+        fired.append(('R26', src.line_of(a0),
+                      'adapter chain %s.iter().filter_map(|%s| ..).collect() -> explicit loop into Vec (vx_c_%d)' % (srctxt, ' '.join(pat.split()), k)))
+        return ed.apply()
+    raise Undecided('lost-anchor', 'filter_map_loop %d: no such adapter chain in %s' % (nth, fname))
 
 
 def rw_match_map(text, nth, fired, fname):
@@ -1121,12 +1255,20 @@ def splice_function(ft, directives, security=False):
         if d.kind == 'for_each':
             text = rw_for_each(text, int(d.arg.split()[0]) if d.arg.strip() else 1, fired, ft.name)
     for d in directives:
+        if d.kind == 'fold_loop':
+            text = rw_fold_loop(text, int(d.arg.split()[0]) if d.arg.strip() else 1, fired, ft.name)   # R29 (unit qos_plcdr)
+    for d in directives:
         if d.kind == 'chain_loop':
             # R25: `@@chain_loop k <CollectionType> <insert|push>`
             ca = d.arg.split()
             if len(ca) != 3 or ca[2] not in ('insert', 'push'):
                 raise Undecided('unsupported-construct', 'chain_loop needs: k <CollectionType> <insert|push>')
             text = rw_chain_loop(text, int(ca[0]), ca[1], ca[2], fired, ft.name)
+    for d in directives:
+        if d.kind == 'filter_map_loop':
+            # R26: `@@filter_map_loop k`
+            text = rw_filter_map_loop(text, int(d.arg.split()[0]) if d.arg.strip() else 1, fired, ft.name,
+                                      d.arg.split(None, 1)[1].strip() if len(d.arg.split(None, 1)) > 1 else '')
     if any(d.kind == 'mut_self' for d in directives):
         text = rw_mut_self(text, fired, ft.name)
     for d in directives:
@@ -1910,6 +2052,49 @@ def extract_const(repo, rel, selector, security, rec):
     return lines
 
 
+def extract_const_str(repo, rel, selector, security, rec):
+    """R28 (added for unit `permissions`): `@@extract const_str <file> <mod>::<NAME>` copies the string
+    constant `const NAME: &str = "<literal>";` of the inline module `mod <mod> { .. }` verbatim, except
+    that (a) the visibility is widened to `pub` (R10) and (b) the elided lifetime of the reference in
+    the const's type is spelled out, `&str` -> `&'static str`.  (b) is the language rule (the elided
+    lifetime in the type of a `const` item is `'static`); Verus needs it written because it turns a
+    const into a function.  Guards (else UNDECIDED): exactly one inline module of that name holds exactly
+    one const of that name, its type is literally `&str`, its initialiser is one string literal."""
+    src = load_src(repo, rel)
+    if '::' not in selector:
+        raise Undecided('unsupported-construct', 'const_str needs <mod>::<NAME>')
+    modname, name = selector.rsplit('::', 1)
+    cands = []
+    for it in rscan.top_items(src):
+        if it.kind == 'mod' and it.name == modname and it.open_si is not None and cfg_ok(it.attrs, security):
+            for sub in rscan.items_in(src, it.open_si + 1, it.end_si):
+                if sub.kind == 'const' and sub.name == name and cfg_ok(sub.attrs, security):
+                    cands.append(sub)
+    if len(cands) != 1:
+        raise Undecided('lost-anchor', 'const_str %s: %d candidates' % (selector, len(cands)))
+    it = cands[0]
+    kw = next(i for i in range(it.start_si, it.end_si + 1) if src.s(i) == 'const')
+    want = [name, ':', '&', 'str', '=']
+    if [src.s(kw + 1 + x) for x in range(len(want))] != want or src.t(kw + 6).kind != 'str' or src.s(kw + 7) != ';':
+        raise Undecided('unsupported-construct', 'const_str %s: not of the form `const NAME: &str = "literal";`' % selector)
+    a, b = src.t(it.start_si).pos, src.t(kw + 7).end
+    orig = src.text[a:b]
+    first_line = src.line_of(a)
+    head = src.text[a:src.t(kw).pos]
+    amp = src.t(kw + 3)
+    body = ('pub ' + keep_newlines(head) + src.text[src.t(kw).pos:amp.end] + "'static " + src.text[amp.end:b].lstrip(' '))
+    lines = []
+    ln = first_line
+    for raw in body.split('\n'):
+        lines.append((raw, {'o': 'src', 'file': rel, 'line': ln, 'fn': 'const ' + selector}))
+        ln += 1
+    rec.append({'item': 'const %s' % selector, 'file': rel, 'lines': [first_line, src.line_of(b)],
+                'sha256': hashlib.sha256(orig.encode()).hexdigest(),
+                'rewrites': [['R10', first_line, 'visibility %r -> pub' % head.strip()],
+                             ['R28', first_line, "const NAME: &str -> const NAME: &'static str (elided lifetime of a const's type spelled out)"]]})
+    return lines
+
+
 def extract_const_exec(repo, rel, selector, opts, security, rec):
     """`@@extract const_exec <file> <Type::NAME | NAME> [ensures="<clauses>"]` (added for unit
     `matching`, self-contained): copies a `const` item whose initialiser Verus only accepts in
@@ -2152,6 +2337,11 @@ def build_unit(verif_root, repo, unit, security=None, force_degrade=None):
                     continue
                 elif kind == 'const_exec':
                     out_lines.extend(extract_const_exec(repo, pos[1], pos[2], kv, unit_security[0], record))
+                    i += 1
+                    continue
+                elif kind == 'const_str':
+                    # R28 (added for unit `permissions`), see extract_const_str
+                    out_lines.extend(extract_const_str(repo, pos[1], pos[2], unit_security[0], record))
                     i += 1
                     continue
                 elif kind in ('struct', 'enum'):
